@@ -124,3 +124,15 @@ CHECKS["C12"] = dict(
     parts=[P("client", "^TestC12Client$", shards=(8, 8), timeout=(1200, 14400))],
     floor=500,
 )
+
+CHECKS["C05"] = dict(
+    level="exploration",
+    technique="recorded histories at the LockBackend boundary (CLOCK_MONOTONIC call/return times, unique values) checked offline with porcupine against a nondeterministic compare-and-swap register model partitioned by log ID, plus exact uniqueness monitors and a request monitor on protocol-level fakes; race detector on the in-process workloads",
+    text="SQLite: the real NewSQLiteBackend on real files under goroutines on one handle, several handles on one file, reopen between phases, and 2-5 separate OS processes (the harness binary re-executed as lock client). DynamoDB and ETag: the real backends through the real AWS SDK against protocol-level fakes that honour ConditionExpression / If-Match (incl. the empty If-Match create convention), answer non-consistent reads with a stale version, delay, and answer 500 with the write applied or not. Each history (150-600 ops, 1-3 log IDs, unique values incl. NUL bytes, long and one empty value) must be linearizable as a CAS register where a failed write may or may not have taken effect; at most one successful Replace per predecessor and one successful Create per ID; every PutItem/PutObject must carry its condition and every GetItem ConsistentRead. Sequential sanity per backend: missing log => ErrLogNotFound, Create never overwrites, Replace with the fetched value succeeds, stale Replace fails, values survive reopen.",
+    note="DynamoDB, S3 and Tigris themselves are not available: the fakes define their semantics (recorded as an assumption). porcupine timeouts are reported as inconclusive. Fixed defect F2 (ETag Fetch did not return ErrLogNotFound) is covered by the sequential sanity check.",
+    design_ref="DESIGN.md section 3, C05",
+    parts=[P("sqlite", "^TestC05SQLite$", shards=(4, 16)), P("sqlite-processes", "^TestC05SQLiteProcesses$", shards=(2, 8)),
+           P("dynamodb", "^TestC05Dynamo$", shards=(2, 16)), P("etag", "^TestC05ETag$", shards=(2, 16)),
+           P("inprocess-race", "^TestC05(SQLite|Dynamo|ETag)$", race=True, shards=(2, 8))],
+    floor=20,
+)
